@@ -90,7 +90,7 @@ def _spawn(cfg, careful=False):
 
 
 def died_event(op, signal_no):
-    return {"ev": op[0], "l": op[1], "n": op[2], "arg": op[3], "x": op[4], "out": "died", "exc": "signal %s" % signal_no,
+    return {"ev": op[0], "l": op[1], "n": op[2], "arg": op[3], "x": op[4], "how": (op[6] if len(op) > 6 else "path") if op[0] == "open" else "", "out": "died", "exc": "signal %s" % signal_no,
             "val": 0, "sym": 0, "cls": 0, "touch": 0, "d": [], "p": []}
 
 
